@@ -271,7 +271,20 @@ def apply_edit(sf, edit, serial, safe):
             new = tgt.clone(source=None)
         mapper = {tgt: new}
         rec['new'] = mode
-    unit.body = Transformer(mapper).visit(unit.body)
+    parent = None
+    if op == 'delete':
+        for n, anc in walk(unit.body):
+            if n is tgt:
+                parent = anc[-1]
+                break
+    trafo = Transformer(mapper)
+    old_body = unit.body
+    unit.body = trafo.visit(unit.body)
+    if parent is not None:
+        # a removed node is a change of its parent: the parent must not keep a VALID source
+        now = unit.body if parent is old_body else trafo.rebuilt.get(parent, parent)
+        if is_valid(now):
+            rec['stale_parent'] = type(now).__name__
     invalidate_path(sf, unit)
     rec['applied'] = True
     return rec
@@ -330,7 +343,7 @@ def header_is_continued(node):
     return code.rstrip().endswith('&')
 
 
-BREAKING = ('one-line-if', 'one-line-where', 'else-if-chain', 'continued-block-header', 'labelled-do', 'shared-line')
+BREAKING = ('one-line-if', 'one-line-where', 'else-if-chain', 'continued-block-header', 'labelled-do', 'shared-line', 'removed-node')
 
 
 def triggers(sf):
